@@ -10,9 +10,12 @@ import (
 	"flag"
 	"fmt"
 	"go/types"
+	"io"
 	"os"
 	"os/exec"
 	"path/filepath"
+	"runtime"
+	"runtime/pprof"
 	"sort"
 	"strings"
 	"sync"
@@ -65,7 +68,7 @@ func parseFlags(args []string) *config {
 	fs.StringVar(&c.Pkg, "pkg", "", "package (relative to repo root) the harness is injected into")
 	fs.StringVar(&c.Harness, "harness", "", "harness function name")
 	fs.BoolVar(&c.Tests, "tests", false, "load the package's test variant (harness may use _test.go helpers)")
-	fs.StringVar(&c.Solver, "solver", "z3-new", "solver binary (z3-new | z3)")
+	fs.StringVar(&c.Solver, "solver", "libz3", "solver backend: libz3 (in-process z3 5.1) | z3-new | z3 (pipe)")
 	fs.IntVar(&c.TimeoutMs, "timeout-ms", 3000, "incremental per-query solver timeout")
 	fs.IntVar(&c.OneShotMs, "oneshot-ms", 60000, "timeout of the one-shot fallback query")
 	fs.Int64Var(&c.MaxSteps, "max-steps", 0, "per-path instruction budget")
@@ -124,6 +127,20 @@ func overlayFiles(c *config) (map[string]string, []string, error) {
 	for _, e := range ents {
 		if strings.HasSuffix(e.Name(), ".go") {
 			ov[filepath.Join(c.Repo, "zzverif", "sym", e.Name())] = filepath.Join(symDir, e.Name())
+		}
+	}
+	// shared helper packages: harness/zzlib/<name> -> <repo>/zzverif/<name>
+	if libs, err := os.ReadDir(filepath.Join(c.HarnessDir, "zzlib")); err == nil {
+		for _, l := range libs {
+			if !l.IsDir() {
+				continue
+			}
+			files, _ := os.ReadDir(filepath.Join(c.HarnessDir, "zzlib", l.Name()))
+			for _, e := range files {
+				if strings.HasSuffix(e.Name(), ".go") {
+					ov[filepath.Join(c.Repo, "zzverif", l.Name(), e.Name())] = filepath.Join(c.HarnessDir, "zzlib", l.Name(), e.Name())
+				}
+			}
 		}
 	}
 	hdir := filepath.Join(c.HarnessDir, c.Pkg)
@@ -223,6 +240,9 @@ type job struct {
 }
 
 func solverCmd(c *config) []string {
+	if c.Solver == "libz3" {
+		return []string{"libz3"}
+	}
 	return []string{c.Solver, "-in"}
 }
 
@@ -249,6 +269,11 @@ func pathOpts(c *config, want bool) interp.PathOpts {
 }
 
 func worker(c *config) {
+	if pf := os.Getenv("GOSYM_CPUPROFILE"); pf != "" {
+		f, _ := os.Create(fmt.Sprintf("%s.%d", pf, os.Getpid()))
+		pprof.StartCPUProfile(f)
+		defer pprof.StopCPUProfile()
+	}
 	e, fn, err := newEngine(c)
 	w := bufio.NewWriter(os.Stdout)
 	enc := json.NewEncoder(w)
@@ -256,6 +281,12 @@ func worker(c *config) {
 		enc.Encode(map[string]string{"fatal": err.Error()})
 		w.Flush()
 		os.Exit(2)
+	}
+	if os.Getenv("GOSYM_MEMSTATS") != "" {
+		var ms runtime.MemStats
+		runtime.GC()
+		runtime.ReadMemStats(&ms)
+		fmt.Fprintf(os.Stderr, "worker heap after load: alloc=%dMB sys=%dMB numgc=%d\n", ms.HeapAlloc>>20, ms.Sys>>20, ms.NumGC)
 	}
 	enc.Encode(map[string]string{"ready": fn.String()})
 	w.Flush()
@@ -290,9 +321,10 @@ func one(c *config) {
 // coordinator
 
 type workerProc struct {
-	cmd *exec.Cmd
-	in  *bufio.Writer
-	out *bufio.Scanner
+	cmd   *exec.Cmd
+	in    *bufio.Writer
+	out   *bufio.Scanner
+	stdin io.WriteCloser
 }
 
 type Result struct {
@@ -325,6 +357,7 @@ type Result struct {
 	SolverVersion string             `json:"solver_version"`
 	QueryScripts  int                `json:"query_scripts"`
 	Workers       int                `json:"workers"`
+	PathWallS     float64            `json:"path_wall_s"`
 }
 
 type ConfirmedViol struct {
@@ -352,7 +385,14 @@ func startWorker(c *config) (*workerProc, error) {
 		args = append(args, "-log-queries")
 	}
 	cmd := exec.Command(self, args...)
-	cmd.Env = append(os.Environ(), "GOGC=400", "GOMAXPROCS=2")
+	gogc, gmp := "400", "2"
+	if v := os.Getenv("GOSYM_WORKER_GOGC"); v != "" {
+		gogc = v
+	}
+	if v := os.Getenv("GOSYM_WORKER_PROCS"); v != "" {
+		gmp = v
+	}
+	cmd.Env = append(os.Environ(), "GOGC="+gogc, "GOMAXPROCS="+gmp)
 	cmd.Stderr = os.Stderr
 	in, err := cmd.StdinPipe()
 	if err != nil {
@@ -367,7 +407,7 @@ func startWorker(c *config) (*workerProc, error) {
 	}
 	sc := bufio.NewScanner(out)
 	sc.Buffer(make([]byte, 1<<20), 1<<30)
-	return &workerProc{cmd, bufio.NewWriter(in), sc}, nil
+	return &workerProc{cmd, bufio.NewWriter(in), sc, in}, nil
 }
 
 type wres struct {
@@ -389,7 +429,9 @@ func run(c *config) int {
 		}
 		return 3
 	}
-	if v, err := exec.Command(c.Solver, "--version").Output(); err == nil {
+	if c.Solver == "libz3" {
+		res.SolverVersion = "libz3 5.1 in-process (one-shot fallback: z3-new 5.1 binary)"
+	} else if v, err := exec.Command(c.Solver, "--version").Output(); err == nil {
 		res.SolverVersion = strings.TrimSpace(string(v))
 	}
 	maxW := c.Workers
@@ -431,6 +473,13 @@ func run(c *config) int {
 	defer func() {
 		cmdMu.Lock()
 		defer cmdMu.Unlock()
+		if os.Getenv("GOSYM_CPUPROFILE") != "" {
+			for _, w := range workers {
+				w.stdin.Close()
+				w.cmd.Wait()
+			}
+			return
+		}
 		for _, cmd := range allCmds {
 			cmd.Process.Kill()
 			go cmd.Wait()
@@ -489,7 +538,11 @@ func run(c *config) int {
 		}
 		// more work than workers: grow the pool
 		if overLimit == "" && c.Prefix == "" {
-			for want := len(stack)/3 + 1; want > len(workers)+spawning && len(workers)+spawning < maxW; {
+			want := len(stack)/3 + 1
+			if w2 := res.PathsTotal/25 + 1; w2 < want {
+				want = w2 // do not pay for workers before the run has shown it is long
+			}
+			for want > len(workers)+spawning && len(workers)+spawning < maxW {
 				spawn()
 			}
 		}
@@ -522,6 +575,7 @@ func run(c *config) int {
 		res.NUnsat += pr.NUnsat
 		res.NUnknown += pr.NUnknown
 		res.SolverS += pr.SolverMs / 1000
+		res.PathWallS += pr.WallMs / 1000
 		if n := len(pr.Decisions); n > res.MaxDecisions {
 			res.MaxDecisions = n
 		}
